@@ -1,7 +1,8 @@
 (* Model of TestCase.assertThat / expectThat / _matchHelper / addDetailUniqueName
    (testcase.py:465-528), assertions.assert_that (assertions.py:11-26) and of the
-   part of RunTest._run_core that turns force_failure into a failure once the
-   test has finished (runtest.py:150-176).  A matcher is represented by what
+   part of RunTest._run_core / _run_prepared_result that runs setUp, the test
+   method, tearDown and the cleanups, turns force_failure into a failure once the
+   test has finished and reports the exception caught last (runtest.py:96-193).  A matcher is represented by what
    its match() returns on the matchee: None, or a mismatch with its
    get_details() as (name, payload token) pairs.  Executable definitions only. *)
 From Coq Require Import String DecimalString.
@@ -38,10 +39,15 @@ Definition add_unique (ds : option (list detail)) (d : detail) : option (list de
               end
   end.
 
-Inductive akind := AssertThat | ExpectThat | AssertThatFn.      (* AssertThatFn = assertions.assert_that *)
-Record step := { s_kind : akind; s_mis : option (list detail) }.
+(* what a statement of the test can raise: SkipTest (self.skipException), AssertionError
+   (self.failureException; MismatchError is one), _ExpectedFailure, _UnexpectedSuccess, any other Exception *)
+Inductive exck := XSkip | XFail | XXFail | XUXSuccess | XErr.
 
-Inductive outcome := Success | Failure | Error | NoOutcome.
+(* AssertThatFn = assertions.assert_that; Raise e = the statement raises e (skipTest, fail, expectFailure, raise ...) *)
+Inductive akind := AssertThat | ExpectThat | AssertThatFn | Raise (e : exck).
+Record step := { s_kind : akind; s_mis : option (list detail) }.      (* s_mis is not looked at for Raise *)
+
+Inductive outcome := Success | Failure | Error | Skip | ExpFailure | UnexpSuccess | NoOutcome.
 
 Record tstate := { t_details : option (list detail); t_forced : bool }.
 
@@ -52,36 +58,81 @@ Definition match_helper (st : tstate) (mis : option (list detail)) : tstate * bo
   | Some ds => ({| t_details := fold_left add_unique ds (t_details st); t_forced := t_forced st |}, true)
   end.
 
-(* the test body: returns the final state, for every executed statement whether it raised, and
-   whether the body was left by an exception *)
-Fixpoint run_body (st : tstate) (steps : list step) : tstate * list bool * bool :=
+(* one user function (setUp, the test method, tearDown, one cleanup): returns the final state, for every
+   executed statement whether it raised, and the exception that left the function, if any *)
+Fixpoint run_body (st : tstate) (steps : list step) : tstate * list bool * option exck :=
   match steps with
-  | [] => (st, [], false)
+  | [] => (st, [], None)
   | s :: r =>
       match s_kind s with
       | AssertThat =>
           let '(st', err) := match_helper st (s_mis s) in
-          if err then (st', [true], true)
-          else let '(st2, l, raised) := run_body st' r in (st2, false :: l, raised)
+          if err then (st', [true], Some XFail)
+          else let '(st2, l, e) := run_body st' r in (st2, false :: l, e)
       | ExpectThat =>
           let '(st', err) := match_helper st (s_mis s) in
           let st'' := if err
                       then {| t_details := add_unique (t_details st') ("Failed expectation", 0); t_forced := true |}
                       else st' in
-          let '(st2, l, raised) := run_body st'' r in (st2, false :: l, raised)
+          let '(st2, l, e) := run_body st'' r in (st2, false :: l, e)
       | AssertThatFn =>
           match s_mis s with
-          | Some _ => (st, [true], true)             (* raises MismatchError, attaches nothing *)
-          | None => let '(st2, l, raised) := run_body st r in (st2, false :: l, raised)
+          | Some _ => (st, [true], Some XFail)       (* raises MismatchError, attaches nothing *)
+          | None => let '(st2, l, e) := run_body st r in (st2, false :: l, e)
           end
+      | Raise e => (st, [true], Some e)
       end
   end.
 
-(* RunTest._run_core: the body, then tearDown and cleanups whatever happened, then force_failure *)
-Record trun := { r_raised : list bool; r_after_ran : bool; r_outcome : outcome; r_details : option (list detail) }.
-Definition run_test (pre : list detail) (steps : list step) : trun :=
-  let '(st, l, raised) := run_body {| t_details := Some pre; t_forced := false |} steps in
-  {| r_raised := l;
-     r_after_ran := true;
-     r_outcome := if raised || t_forced st then Failure else Success;
-     r_details := t_details st |}.
+Definition opt_list {A} (o : option A) : list A := match o with Some x => [x] | None => [] end.
+
+(* RunTest._run_cleanups: every cleanup runs through _run_user, whatever the earlier ones raised
+   (the argument is the list in the order of execution) *)
+Fixpoint run_cleanups (st : tstate) (cs : list (list step)) : tstate * list (list bool) * list exck :=
+  match cs with
+  | [] => (st, [], [])
+  | c :: r =>
+      let '(st1, l, e) := run_body st c in
+      let '(st2, ls, es) := run_cleanups st1 r in
+      (st2, l :: ls, opt_list e ++ es)%list
+  end.
+
+(* TestCase.exception_handlers: which add* the handler of an exception calls *)
+Definition outcome_of (e : exck) : outcome :=
+  match e with
+  | XSkip => Skip | XFail => Failure | XXFail => ExpFailure | XUXSuccess => UnexpSuccess | XErr => Error
+  end.
+(* _run_prepared_result: e = self._exceptions.pop() - the exception caught last decides (every exception of
+   the modelled kinds is claimed by a handler); no exception: _run_core has called addSuccess *)
+Definition final_outcome (excs : list exck) : outcome :=
+  fold_left (fun _ e => outcome_of e) excs Success.
+
+(* a test: details attached at the start of setUp, then the statements of setUp, of the test method, of
+   tearDown, and the cleanups in the order of their registration (all registered by setUp) *)
+Record prog := { p_pre : list detail; p_setup : list step; p_body : list step; p_teardown : list step;
+                 p_cleanups : list (list step) }.
+
+Record trun := { r_raised : list (list bool); r_after_ran : bool; r_outcome : outcome;
+                 r_details : option (list detail) }.
+
+(* RunTest._run_core (runtest.py:130-176).  setUp raised: the cleanups, then return - force_failure is not
+   consulted.  Otherwise the test method, then tearDown and the cleanups (LIFO) whatever happened, then, if
+   force_failure is set, _raise_force_fail_error through _run_user: its AssertionError is caught last. *)
+Definition run_test (p : prog) : trun :=
+  let st0 := {| t_details := Some (p_pre p); t_forced := false |} in
+  let '(st1, l0, e0) := run_body st0 (p_setup p) in
+  match e0 with
+  | Some x =>
+      let '(st4, ls, es) := run_cleanups st1 (rev (p_cleanups p)) in
+      {| r_raised := l0 :: ls; r_after_ran := true;
+         r_outcome := final_outcome (x :: es);
+         r_details := t_details st4 |}
+  | None =>
+      let '(st2, l1, e1) := run_body st1 (p_body p) in
+      let '(st3, l2, e2) := run_body st2 (p_teardown p) in
+      let '(st4, ls, es) := run_cleanups st3 (rev (p_cleanups p)) in
+      let forced := if t_forced st4 then [XFail] else [] in
+      {| r_raised := l0 :: l1 :: l2 :: ls; r_after_ran := true;
+         r_outcome := final_outcome (opt_list e1 ++ opt_list e2 ++ es ++ forced)%list;
+         r_details := t_details st4 |}
+  end.
